@@ -31,6 +31,8 @@ MIN_EVENTS = {"accept-valid": 300, "reject-invalid": 50, "from_specifierset": 30
 MIN_SHAPES = {"op:~=": 20, "op:==*": 10, "op:!=*": 10, "shape:epoch": 20, "shape:pre": 20, "shape:post": 20,
               "shape:dev": 20, "union": 20, "shape:nonnormalised": 20}
 SHARDS = {"quick": 2, "thorough": 16}
+# blanks that str.strip() / a unicode-mode \s accept besides the ASCII ones (packaging is the reference for validity)
+UNICODE_BLANKS = ["\t", "\n", "\x0b", "\x0c", "\x1c", "\x85", "\xa0", "\u1680", "\u2003", "\u2028", "\u202f", "\u3000"]
 
 
 def setup(ctx):
@@ -68,7 +70,8 @@ def _clause(ctx, rnd):
     op = rnd.choice(["==", "!=", "<", "<=", ">", ">=", "~=", "==", "!="])
     wild = op in ("==", "!=") and rnd.random() < 0.3
     v, shapes, nn = _ver(rnd, wild)
-    return f"{op}{rnd.choice(['', ' ', '  '])}{v}", op + ("*" if wild else ""), shapes, nn
+    sp = rnd.choice(['', ' ', '  ']) if rnd.random() < 0.93 else rnd.choice(UNICODE_BLANKS)
+    return f"{op}{sp}{v}", op + ("*" if wild else ""), shapes, nn
 
 
 def _mutate(rnd, s):
@@ -154,7 +157,8 @@ def run(ctx):
     n = 6000 if ctx.tier == "quick" else 80000
     fixed = ["", "<empty>", " ", ">=1.0 , <2", "==1!0.*", "~=1!0.1", "~=1.0c1", "~=1.0.rev1", "~=v1.1", "~=1.0-rc.1",
              "!=1!2.3.*", "~=2!1.2.3", "==01.02.*", "~=1.0.0.0.0", "==1.0alpha1", "<=1.0-1", ">=1.0||<0.5", "<empty>||>=1",
-             "~= 1.2.post3.dev4", "~=1.2a3", "== 0!1.*", "~=1.2_beta.3"]
+             "~= 1.2.post3.dev4", "~=1.2a3", "== 0!1.*", "~=1.2_beta.3", ">=\xa01.0", ">=1.0\u2003,\u2003<2", "\u3000==1.*",
+             "~=1.0.po\u017ft1", ">=1.0\u2028", "==1.0.\u0661", ">=\uff11.0"]
     for t in fixed:
         ctx.current_case = {"kind": "text", "text": t}
         _one(ctx, t)
@@ -175,7 +179,11 @@ def run(ctx):
     for i in range(n):
         k = rnd.choice([1, 1, 2, 3])
         clauses = [_clause(ctx, rnd) for _ in range(k)]
-        text = rnd.choice([",", ", ", " , "]).join(c[0] for c in clauses)
+        sep = rnd.choice([",", ", ", " , "]) if rnd.random() < 0.95 else rnd.choice(UNICODE_BLANKS) + "," + rnd.choice(UNICODE_BLANKS)
+        text = sep.join(c[0] for c in clauses)
+        if rnd.random() < 0.04:
+            text = rnd.choice(UNICODE_BLANKS) + text + rnd.choice(UNICODE_BLANKS)
+            ctx.shape("shape:unicode-blank")
         mutated = rnd.random() < 0.3
         if mutated:
             text = _mutate(rnd, text)
